@@ -36,10 +36,14 @@ THEOREMS = {"Proofs.Props.C02": ["MsPack.Cab.C02_block_fits_buffer", "MsPack.Cab
             "Proofs.Props.C02CabLift3": ["MsPack.CabLift.C02_cab_qtm_no_fault", "MsPack.CabLift.C02_cab_qtm_no_ub_all", "MsPack.CabLift.C02_cab_qtm_decompress_no_fault",
                                          "MsPack.CabLift.C02_cab_qtm_calls_no_fault", "MsPack.CabLift.C02_cab_qtm_fresh", "MsPack.CabLift.C02_cab_qtm_fresh_no_fault"],
             "Proofs.Props.C02CabLift4": ["MsPack.CabLift.C02_cab_lzx_run_eq", "MsPack.CabLift.C02_cab_lzx_no_oob", "MsPack.CabLift.C02_cab_lzx_no_fault",
-                                         "MsPack.CabLift.C02_cab_lzx_no_ub", "MsPack.CabLift.C02_cab_lzx_fresh"],
+                                         "MsPack.CabLift.C02_cab_lzx_no_ub", "MsPack.CabLift.C02_cab_lzx_fresh", "MsPack.CabLift.C02_cab_lzx_status_sticky"],
+            "Proofs.Props.C02CabExtract": ["MsPack.CabLift.C02_cab_lzx_decompress_no_fault", "MsPack.CabLift.C02_cab_lzx_calls_no_fault", "MsPack.CabLift.C02_cab_lzx_fresh_no_fault",
+                                           "MsPack.CabLift.memberCheck_cap", "MsPack.CabLift.C02_cab_extract_safe", "MsPack.CabLift.C02_cab_extract_no_ub",
+                                           "MsPack.CabLift.C02_cab_session_no_ub", "MsPack.CabLift.C02_cab_session_fresh_no_ub"],
             "Proofs.Props.Tables": ["MsPack.TableObligations.cab_block_fits", "MsPack.TableObligations.lzx_dims",
                                     "MsPack.TableObligations.qtm_dims", "MsPack.TableObligations.zip_dims"]}
-ASSUMPTIONS = ["theorems: on the models the out-of-bounds (and null-dereference, shift-width, division, uninitialised-table) outcomes are unreachable for every input - CAB container buffers, the LZSS decoder, the KWAJ header reader (13-byte name buffer), the KWAJ LZH decoder and the MSZIP decoder (window, input buffer, bit-length table; CAB and KWAJ entry points, any sequence of calls); "
+ASSUMPTIONS = ["END TO END for CAB (C02CabExtract): for every set of files, every parameter setting (salvage included), every list of members and every list of extract() calls threaded through the decoder cache from a fresh decompressor, the model's cabd_extract never ends in an out-of-bounds, null-dereference, division or shift-width outcome - no hypothesis left (C02_cab_session_fresh_no_ub); the position bound 2^31 of the LZX theorem is discharged by memberCheck's cap (offset + length <= CAB_LENGTHMAX), LenStable by the feeder invariant; the only fault outcomes left are the model's fuel (`hang`, C04's subject) and LZX's unbuilt-table outcome (`uninit`, C11's subject). ",
+               "theorems: on the models the out-of-bounds (and null-dereference, shift-width, division, uninitialised-table) outcomes are unreachable for every input - CAB container buffers, the LZSS decoder, the KWAJ header reader (13-byte name buffer), the KWAJ LZH decoder and the MSZIP decoder (window, input buffer, bit-length table; CAB and KWAJ entry points, any sequence of calls); "
                "a fault can only be one the source's own read() raised (none for the file-backed sources) or the model's fuel running out; the LZX decoder (all its window, input-buffer, length-array, position-table and E8-buffer accesses, any sequence of calls, CAB/CHM/DELTA) under two stated side conditions: the stream length announced to the decoder does not change once set (`LenStable`; lzxd_set_output_length called with a second, different value after a short last frame IS an out-of-bounds write on the model - not reachable through the public API, where cabd sets it once) and the stream position stays below 2^31 (beyond it `match_offset - window_posn` wraps as an int on the model; CAB caps offsets there, a CHM stream beyond 2 GiB is outside what this sandbox can replay); "
                "the Quantum decoder (window, input buffer, the nine adaptive models incl. the division by the model's total frequency: the invariant keeps it non-zero), any sequence of calls; "
                "the CAB feeder (`C02CabLift.lean`): in every state its only faults are the two null dereferences of `cabd_sys_read_block` (`d->infh`, `d->data`) and none at all while it is live (a handle and a part list; fresh feeders are, delivering reads keep it, a failed read leaves `read_error` set and the decoders' sticky error keeps them from reading again - that last step is threaded through the MSZIP and Quantum decoders (`C02CabLift2.lean`, `C02CabLift3.lean`: with the invariant 'window ok, and no sticky error => feeder live', which a fresh folder state satisfies and every call keeps, NO fault of any kind for any sequence of calls on a CAB MSZIP or Quantum folder - no hypothesis on the source left); LZX folders (`C02CabLift4.lean`): the same walk done relationally (the run over the feeder equals the run over the feeder with announcements filtered to the folder's length, from every state with a live, length-consistent feeder) discharges `LenStable` on reachable states: C02_cab_lzx_no_oob / _no_fault / _no_ub hold for the real feeder, a fresh LZX folder state satisfies the invariant, every call keeps it; what remains there is the position bound 2^31 and the `uninit` outcome (an unbuilt decode table - C11's subject); stored folders: no fault for any sequence of calls); the stream length the feeder announces to LZX is the folder's total uncompressed size and is closed under every read (`FeederLen`) - `LenStable` over ALL feeder states is false (`C02_cab_lenStable_fails`), which is why the LZX lift goes through the filtered feeder and a run-equality; "
